@@ -234,6 +234,11 @@ func (c *Context) ask(system bool, recipient vivid.ActorRef, message vivid.Messa
 		c.system.removeFuture(agentRef)
 	})
 	c.system.appendFuture(agentRef, futureIns)
+	// 超时时间极短时，定时器可能在注册之前就已触发：其清理动作发生在注册之前，刚写入的注册项将永远不会被移除。
+	// 注册后若发现 Future 已完成，则在此补偿性地移除
+	if futureIns.Closed() {
+		c.system.removeFuture(agentRef)
+	}
 
 	envelop := mailbox.NewEnvelop(system, agentRef.ref, recipient, message)
 	receiverMailbox := c.system.findMailbox(recipient.(*Ref))
